@@ -169,6 +169,7 @@ def _correspond(ctx, corr, rng, T, ls):
             n += 1
     corr.count(suite, n)
     corr.exhaustive["read_raw: every multi-location value x every last location 0..255"] = True
+    corr.exhaustive["images / holes / faults / read_all suites (sampled)"] = False
     corr.sample({"suite": suite, "value": vk, "last": last, "outcome": end})
 
     # ---- read_raw / read: images, holes, mismatches, faults --------------------------------------
